@@ -1200,7 +1200,10 @@ type fetchLiteralReader struct {
 
 func (lit *fetchLiteralReader) Read(b []byte) (int, error) {
 	n, err := lit.LiteralReader.Read(b)
-	if err == io.EOF && lit.ch != nil {
+	// Unblock the read goroutine on any error, not just on EOF: it is waiting
+	// for the literal to be consumed and is the only one that can notice that
+	// the connection is broken
+	if err != nil && lit.ch != nil {
 		close(lit.ch)
 		lit.ch = nil
 	}
